@@ -263,6 +263,9 @@ class LifterModel(object):
             live_r = sorted(b & 7 for b in (live if live is not None else range(256)))
             r0 = 3 if 3 in live_r else live_r[0]
             base.append(('+r%d' % r0, [self.REG(r0, S)]))
+            if self.rich and r0 != 0 and 0 in live_r:
+                # register number 0 (eax / st(0)) is the implicit operand of many of these rows: both operands are then one register
+                base.append(('+r0', [self.REG(0, S)]))
         elif rmr in dibs:
             for tag, mafs, modr in self._rmr_forms(row, name, modifs, opmode, prefix):
                 ops = [mafs, modr]
